@@ -295,6 +295,7 @@ package keeper
 
 //@ func (Keeper).IncrementUndelegationHoldCount
 //@   requires recordKey != nil
+//@   emits mkEv(88, recordKey, 0)
 //@   modifies get(ctx, "delegation", holdKey(recordKey))
 //@   ensures[C03.ihc.spec]   (err != nil) <==> old(holdCount(ctx, recordKey)) == 18446744073709551615
 //@   ensures[C03.ihc.inc]    err == nil ==> holdCount(ctx, recordKey) == old(holdCount(ctx, recordKey)) + 1
